@@ -37,6 +37,9 @@ def mk(E, name, kind, th):
         s, fl = S.mk_multistream(E, name, th, phases='lg' if ph in 'lg' else ph + 'l',
                                  flows={p: (S.sym_flows(E, f'{name}{p}', th.chemicals.size, [1] * th.chemicals.size) if p == ph
                                             else [0.0] * th.chemicals.size) for p in ('lg' if ph in 'lg' else ph + 'l')})
+    elif kind.startswith('msP:'):
+        # a MultiStream whose phase tuple has a single phase
+        s, fl = S.mk_multistream(E, name, th, phases=(kind[4:],))
     elif kind.startswith('ms:'):
         s, fl = S.mk_multistream(E, name, th, phases=kind[3:])
     else:
@@ -198,9 +201,16 @@ def g_sharing():
         sig = f'{kind}/{how}'
         if how == 'link-then-unlink':
             before_b = state(b)
-            b.unlink()
+            who = E.pick(['linked', 'original'], 'who-unlinks')
+            (b if who == 'linked' else a).unlink()
+            sig += f'/{who}'
             E.prove('unlink-preserves-values', same_state(E, state(b), before_b), sig=sig)
             share = dict(flow=False, TP=False, phase=False)
+        if kind == 'ms:lg':
+            for x, nm in ((a, 'original'), (b, 'other')):
+                eqo = x.vle
+                E.prove('equilibrium-solver-acts-on-the-streams-own-state',
+                        eqo._thermal_condition is x._thermal_condition and eqo._imol is x._imol, sig=f'{sig}/{nm}')
         # mutate a, look at b -- and the other way round
         for side in ('a', 'b'):
             src, dst = (a, b) if side == 'a' else (b, a)
@@ -237,7 +247,7 @@ def g_sharing():
 
 def g_pickle():
     def run(E):
-        kind = E.pick(['l', 'g', 'ms:lg', 'ms1:l'], 'kind')
+        kind = E.pick(['l', 'g', 'ms:lg', 'ms1:l', 'msP:g'], 'kind')
         th = _fx['A']
         price = E.real('price', lo=0, nice=(0.01, 5))
         cf = E.real('cf', nice=(0.1, 9))
@@ -249,8 +259,9 @@ def g_pickle():
             kw['characterization_factors'] = {'GWP': cf}
         ctor = E.pick(['constructor-only', 'constructor+pickle'], 'route')
         if kind.startswith('ms'):
-            a = tmo.MultiStream(None, phases='lg', **kw)
-            rows = {'l': S.sym_flows(E, 'fl', N, [1, 1]), 'g': S.sym_flows(E, 'fg', N, [1, 1] if kind == 'ms:lg' else [0, 0])}
+            a = tmo.MultiStream(None, phases=('g',) if kind == 'msP:g' else 'lg', **kw)
+            rows = {'l': S.sym_flows(E, 'fl', N, [1, 1]) if kind != 'msP:g' else None,
+                    'g': S.sym_flows(E, 'fg', N, [1, 1] if kind in ('ms:lg', 'msP:g') else [0, 0])}
             for ph, r in zip(a.imol._phases, a.imol.data.rows):
                 S.inject(r, rows[ph])
         else:
@@ -267,7 +278,8 @@ def g_pickle():
         if with_cf and not a.characterization_factors:
             a.characterization_factors['GWP'] = cf       # make the pickle leg independent of the constructor leg
         b = pickle.loads(pickle.dumps(a))
-        E.prove('pickle-roundtrip-class', type(b) is type(a), sig=sig)
+        if kind != 'msP:g':      # a one-phase multi-stream comes back as the equivalent single-phase stream
+            E.prove('pickle-roundtrip-class', type(b) is type(a), sig=sig)
         E.prove('pickle-roundtrip-state', same_state(E, state(b), state(a)), sig=sig)
         E.prove('pickle-roundtrip-price', E.eq(b.price, a.price), sig=sig)
         E.prove('pickle-roundtrip-characterization-factors',
@@ -306,10 +318,11 @@ def g_pickle_objects():
 
 def groups(tier):
     q = tier == 'quick'
-    kinds = ['l', 'g', 'ms:lg', 'ms1:l'] if q else ['l', 'g', 's', 'L', 'ms:lg', 'ms1:l', 'ms1:g']
+    kinds = ['l', 'g', 'ms:lg', 'ms1:l', 'msP:g'] if q else ['l', 'g', 's', 'L', 'ms:lg', 'ms1:l', 'ms1:g', 'msP:g', 'msP:l']
     return {
         'copy': (g_copy(kinds), dict(max_paths=400000)),
-        'copy_like': (g_copy_like(['l', 'ms:lg'] if q else ['l', 'g', 'ms:lg'], ['l', 'g', 'ms:lg', 'ms1:l', 'ms1:g', 's'] if not q else ['l', 'g', 'ms:lg', 'ms1:l', 's']),
+        'copy_like': (g_copy_like(['l', 'ms:lg'] if q else ['l', 'g', 'ms:lg', 'ms:ls'],
+                                  ['l', 'g', 'ms:lg', 'ms1:l', 'ms1:g', 's', 'msP:g', 'ms:ls'] if not q else ['l', 'g', 'ms:lg', 'ms1:l', 's', 'msP:g', 'ms:ls']),
                       dict(max_paths=400000)),
         'proxy-and-links': (g_sharing(), dict(max_paths=400000)),
         'stream-pickles': (g_pickle(), dict(max_paths=400000)),
